@@ -11,6 +11,7 @@ C16 - wait never fails and stops at the first restart-semantics match.
     never entered before completion, end() during the wait reports FAIL without entering the handler.
     T3 / T4 are T1 / T2 with the lead-in `/[^S]+/;` directly in front of the wait (S = the pattern's first bytes plus one byte
     that cannot start it), so that the wait is entered from a state that spells out its own error symbols.
+    T5 / T6 are `"G"; optional { wait P; } "Z";` (plain / in a try): the wait is the body of an optional, entered on the pattern's first bytes.
 """
 import glob
 import json
@@ -97,6 +98,23 @@ def reference(auto, word, template, lead=None):
         if base[0] == OK:
             return (OK, len(word), 0, base[3])
         return (base[0], base[1] + j, base[2], base[3])
+    if template in ("T5", "T6"):
+        # "G"; optional { wait P; } "Z";   (lead = First(P): the optional is entered on exactly those bytes)
+        inner = "T1" if template == "T5" else "T2"
+        if not word:
+            return (OK, 0, 0, "lead-incomplete")
+        if word[0] != 0x47:
+            return (FAIL, 0, 0, "lead-fail") if template == "T5" else (DONE, 0, 1, "lead-handler")
+        if len(word) == 1:
+            return (OK, 1, 0, "lead-incomplete")
+        if word[1] in lead:
+            base = reference(auto, word[1:], inner)
+            if base[0] == OK:
+                return (OK, len(word), 0, base[3])
+            return (base[0], base[1] + 1, base[2], base[3])
+        if word[1] == 0x5a:
+            return (DONE, 1, 2 if template == "T6" else 0, "done")
+        return (FAIL, 1, 0, "fail-after") if template == "T5" else (DONE, 1, 1, "handler-after")
     k = completion_index(auto, word)
     n = len(word)
     if k is None:
@@ -124,7 +142,19 @@ def check_pattern(shard, pat, template, argv, max_len, do_c=True):
             extra = next(b for b in (0x78, 0x79, 0x71) if b not in fs)
             lead = frozenset(fs) | {extra}
             ltxt = "/[^%s]+/" % "".join(chr(b) for b in sorted(lead))
-    if template == "T1":
+    opt_first = None
+    if template in ("T5", "T6"):
+        fs = rx.first(core)
+        if 0x47 in fs or 0x5a in fs or rx.nullable(core):
+            template = "T1" if template == "T5" else "T2"
+        else:
+            opt_first = frozenset(fs)
+    if template == "T5":
+        src = "out int m = 0;\nparser {\n    \"G\";\n    optional {\n        wait %s;\n    }\n    \"Z\";\n}\n" % ptxt
+    elif template == "T6":
+        src = ("out int m = 0;\nparser {\n    try {\n        \"G\";\n        optional {\n            wait %s;\n        }\n        \"Z\";\n        m = 2;\n    }\n"
+               "    catch {\n        m = 1;\n    }\n}\n" % ptxt)
+    elif template == "T1":
         src = "out int m = 0;\nparser {\n    wait %s;\n    \"Z\";\n}\n" % ptxt
     elif template == "T2":
         src = "out int m = 0;\nparser {\n    try {\n        wait %s;\n        \"Z\";\n        m = 2;\n    }\n    catch {\n        m = 1;\n    }\n}\n" % ptxt
@@ -162,6 +192,9 @@ def check_pattern(shard, pat, template, argv, max_len, do_c=True):
         alphabet = alphabet[-6:] if len(alphabet) > 6 else alphabet
         if outsider not in alphabet:
             alphabet[0] = outsider
+    if opt_first is not None:
+        lead = opt_first
+        alphabet = [b for b in alphabet if b != 0x47][-5:] + [0x47]
     border = has_border(pat)
     eof = "-feof-support" in argv
     words_for_c = []
@@ -286,7 +319,7 @@ def pattern(draw):
 @st.composite
 def case_strategy(draw):
     pat = draw(pattern())
-    template = draw(st.sampled_from(["T1", "T2", "T2", "T3", "T4"]))
+    template = draw(st.sampled_from(["T1", "T2", "T2", "T3", "T4", "T5", "T6"]))
     argv = [draw(st.sampled_from(gen.OPT_LEVELS))]
     if draw(st.booleans()):
         argv.append("-feof-support")
@@ -328,12 +361,12 @@ def main(ctx):
     quick = ctx.tier == "quick"
     known = tuple(ctx.open_keys)
     ml = 6 if quick else 8
-    ctx.pmap(fixed_worker, [(p, t, ["-O1", "-feof-support"], known, ml) for p in FIXED for t in ("T1", "T2", "T3", "T4")]
+    ctx.pmap(fixed_worker, [(p, t, ["-O1", "-feof-support"], known, ml) for p in FIXED for t in ("T1", "T2", "T3", "T4", "T5", "T6")]
              + [(p, "T1", ["-O3"], known, ml) for p in FIXED_O3])
     n = 40 if quick else 600
     stop_at = time.time() + (70 if quick else 900)
     ctx.pmap(worker, [(ctx.seed * 100003 + i, n, known, stop_at, ml) for i in range(common.NPROC)])
-    ctx.rule = ("case = (wait pattern: literals with internal periodicity, casei, closed regexes, concatenations; templates T1-T4 (plain / in a try / behind a negated-class lead-in); -O level; EOF on/off). "
+    ctx.rule = ("case = (wait pattern: literals with internal periodicity, casei, closed regexes, concatenations; templates T1-T6 (plain / in a try / behind a negated-class lead-in / as the body of an optional); (T3, T4: behind a negated-class lead-in); -O level; EOF on/off). "
                 "Per case: exact product search of the compiled `wait P` against the restart automaton over 256 bytes, then every input up to length %d "
                 "over the pattern's bytes + Z + an outsider through the abstract machine against the reference outcome, end() during the wait, and "
                 "sampled words through the C binary. evaluations = inputs compared. Non-trivial: pattern with a proper border (prefix = suffix) or "
